@@ -63,6 +63,84 @@ def check_model_factors(sc):
     return out
 
 
+def check_steady_state(sc):
+    """The documented helper computeSteadyStateNucleation (example 13) on a binary backend: array call over temperatures and the
+    same points one by one; the quantities of the statement at every point with positive driving force."""
+    import io
+    import math
+    import sys
+    from kawin.precipitation.NucleationRate import computeSteadyStateNucleation
+    from kawin.precipitation.PrecipitationParameters import MatrixParameters, PrecipitateParameters
+    out = Out()
+    th = H.build_therm(sc)
+    ph = sc["phases"][0]
+    matrix = MatrixParameters(["B"])
+    matrix.volume.setVolume(*sc["VmA"])
+    matrix.GBenergy = sc["gbe_ss"]
+    prec = PrecipitateParameters(ph["name"])
+    prec.gamma = ph["gamma"]
+    prec.volume.setVolume(*ph["VmB"])
+    prec.nucleation.gbEnergy = sc["gbe_ss"]
+    prec.nucleation.setNucleationType(ph["site"])
+    Ts = np.array(sc["T_ss"], dtype=float)
+    x0 = float(sc["x0"])
+    so = sys.stdout
+    sys.stdout = io.StringIO()
+    try:
+        arr = computeSteadyStateNucleation(th, x0, Ts, prec, matrix, **({"betaFunc": None} if sc["beta_ss"] == "default" else {"betaFunc": __import__("kawin.precipitation.NucleationRate", fromlist=["betaBinary1"]).betaBinary1}))
+        singles = [computeSteadyStateNucleation(th, x0, float(t), prec, matrix, **({} if sc["beta_ss"] == "default" else {"betaFunc": __import__("kawin.precipitation.NucleationRate", fromlist=["betaBinary1"]).betaBinary1})) for t in Ts]
+    finally:
+        sys.stdout = so
+    names = ("nucleation_rate", "chemical_driving_force", "volumetric_driving_force", "Rcrit", "Gcrit", "Z", "beta", "tau", "nucleation_radius")
+    A = {k: np.atleast_1d(np.asarray(getattr(arr, k), dtype=float)) for k in names}
+    pos = 0
+    for i, t in enumerate(Ts):
+        dg = float(th.getDrivingForce(x0, float(t), precPhase=ph["name"])[0])
+        for k in names:
+            a, b = float(A[k][i]), float(np.squeeze(getattr(singles[i], k)))
+            if not (a == b or (math.isfinite(a) and math.isfinite(b) and math.isclose(a, b, rel_tol=1e-10, abs_tol=0)) or (math.isnan(a) and math.isnan(b))):
+                out.fail("scalar_vs_array", "T=%r: %s = %r inside the array call, %r asked alone" % (float(t), k, a, b), quantity=k)
+        if dg <= 0:
+            if A["nucleation_rate"][i] != 0:
+                out.fail("rate_without_driving_force", "T=%r: driving force %r <= 0 but steady-state nucleation rate %r" % (float(t), dg, float(A["nucleation_rate"][i])))
+            continue
+        pos += 1
+        for k in ("nucleation_rate", "Gcrit", "Z", "beta", "tau", "Rcrit"):
+            v = float(A[k][i])
+            if not math.isfinite(v) or v < 0:
+                out.fail("not_finite_or_negative", "T=%r (driving force %r > 0): %s = %r" % (float(t), dg, k, v), quantity=k)
+        if A["Rcrit"][i] < prec.Rmin * (1 - 1e-12):
+            out.fail("rcrit_below_minimum", "T=%r: critical radius %r below the minimum radius %r" % (float(t), float(A["Rcrit"][i]), prec.Rmin))
+        # sphere, no strain energy: critical radius of a sphere (clamped at the minimum radius), barrier = spherical barrier x volume factor / (4 pi / 3)
+        dgv = dg / prec.volume.Vm
+        rc = max(2 * ph["gamma"] / dgv, prec.Rmin)
+        if not math.isclose(float(A["Rcrit"][i]), rc, rel_tol=1e-9):
+            out.fail("rcrit_not_spherical", "T=%r: critical radius %r, 2 gamma / dGv (or the minimum radius) = %r on %s" % (float(t), float(A["Rcrit"][i]), rc, ph["site"]))
+        if rc > prec.Rmin:
+            gsph = 16 * math.pi * ph["gamma"] ** 3 / (3 * dgv ** 2)
+            f = float(prec.nucleation.volumeFactor) / (4 * math.pi / 3)
+            if not math.isclose(float(A["Gcrit"][i]), gsph * f, rel_tol=1e-9):
+                out.fail("barrier_not_spherical_times_factor", "T=%r on %s: barrier %r, spherical barrier x volume factor/(4pi/3) = %r" % (float(t), ph["site"], float(A["Gcrit"][i]), gsph * f))
+    out.label(ph["site"].replace(" ", "_"), "beta_" + sc["beta_ss"])
+    out.nt(pos >= 2 and pos < len(Ts))
+    return out
+
+
+@st.composite
+def _steady_case(draw):
+    sc = draw(scen.toy_binary_scenario(cap=10, max_phases=1, allow_profile=False, allow_shapes=False))
+    ph = sc["phases"][0]
+    ph.pop("strain", None)
+    T0 = sc["T"][1]
+    # temperatures from well below to above the solvus of the toy phase (the driving force changes sign inside the list)
+    sc["T_ss"] = sorted(set([T0] + [T0 + draw(st.floats(-150.0, 400.0)) for _ in range(draw(st.integers(2, 6)))]))
+    sc["T_ss"] = [t for t in sc["T_ss"] if t > 250.0]
+    lim = 2 * scen.KMAX[ph["site"]] * ph["gamma"] if ph["site"] in scen.KMAX else 0.6
+    sc["gbe_ss"] = draw(st.sampled_from([0.0, 1.0, 1.0])) * draw(st.floats(0.0, 0.95)) * lim
+    sc["beta_ss"] = draw(st.sampled_from(["default", "beta1"]))
+    return sc
+
+
 @st.composite
 def _model_factors_case(draw):
     sc = draw(scen.toy_binary_scenario(cap=50, max_phases=2, allow_profile=False, undersat=False, sites=["grain boundaries", "grain edges", "grain corners", "grain boundaries", "bulk", "dislocations"]))
@@ -96,6 +174,9 @@ def clauses():
         Clause("trajectory", _heating, check_traj, quick=200, thorough=3000, shrink=False,
                rule="generator: toy binary/ternary scenario with a hold, a jump or ramp 40-400 K above the start temperature (through the solvus) and optionally a return; every recorded step with non-positive driving force must record nucleation rate 0; "
                     "non-trivial: the driving force turns non-positive after a step with positive nucleation rate"),
+        Clause("steady_state", _steady_case, check_steady_state, quick=400, thorough=10000,
+               rule="generator: toy binary phase (all five site types, grain-boundary energy 0 or up to 0.95 of the admissible ratio) x 3-7 temperatures from 150 K below to 400 K above the reference temperature (through the solvus) x impingement function {default, betaBinary1}; computeSteadyStateNucleation (documented helper, example 13) called with the temperature array and point by point; "
+                    "oracle: array element = single call for all nine returned quantities; where the driving force is positive rate, barrier, Zeldovich factor, impingement rate, incubation time finite and >= 0, critical radius = max(2 gamma/dGv, minimum radius), barrier = spherical barrier x volume factor/(4 pi/3); rate 0 where the driving force is <= 0; non-trivial: the driving force changes sign inside the list"),
         Clause("model_factors", _model_factors_case, check_model_factors, quick=300, thorough=6000,
                rule="generator: toy binary model (1-2 phases, boundary-type sites in two of three phases) configured with 1-3 grain-boundary energies in turn (0 in one of three, else up to 0.95 of the tightest admissible ratio), reset() between, setup() after each; "
                     "oracle: the five factors of every phase as the model holds them equal those of a freshly constructed barrier object with the current site, interfacial and grain-boundary energy, and are the spherical values at energy 0; non-trivial: more than one configuration with a boundary-type site"),
